@@ -171,7 +171,7 @@ SpecWith(queries) == InitWith(queries) /\ [][Next]_vars
 Compiled == pc = Len(Prog) + 1
 CompileFailed == pc = 0
 (* what executing the compiled statement returns *)
-Exec == IF CompileFailed THEN Failed ELSE Run(Build(q, <<>>), Tabs)
+Exec == IF CompileFailed THEN Failed ELSE RunQ(Build(q, <<>>), Tabs)
 
 OwnTable(node, p) == IF node.from.k = "tab" THEN [k |-> "tab", n |-> node.from.n] ELSE [k |-> "sub", p |-> p \o <<0>>]
 
